@@ -786,6 +786,38 @@ def r10(ctx):
         ctx.emit('C05-R10', True, BTM, tuples[0], f'{len(tuples)} job entries of the one-contig-per-process branch carry no window', key='contig-job-has-no-window')
 
 
+@rule('C05', 'C05-R11', '--no_rejects removes exactly the invalid fragments: where the Fragment constructor flags the READS as rejected (set_rejection_reason(.., set_qcfail=True), which '
+                        'sets the qc-fail bit and RR tag on every mate) the FRAGMENT is marked failed on every path to the end of the constructor - otherwise the reads carry '
+                        'the reject marks but the fragment stays valid and --no_rejects keeps it')
+def r11(ctx):
+    f = ctx.fn(FRAGMENT, 'Fragment.__init__')
+    cfg = CFG(f.body, exceptions=False)
+    marks = [c for c in walk_no_nested(f) if isinstance(c, ast.Call) and isinstance(c.func, ast.Attribute) and c.func.attr == 'set_rejection_reason'
+             and any(k.arg == 'set_qcfail' and isinstance(k.value, ast.Constant) and k.value.value is True for k in c.keywords)]
+    ctx.need('C05-R11', len(marks), 1, 'reject marks set on the reads by the Fragment constructor')
+
+    def step(state, node, label):
+        pending = state[0]
+        for c in node_calls(node):
+            if any(c is m for m in marks):
+                pending = node.ast.lineno if hasattr(node.ast, 'lineno') else -1
+        a = node.ast
+        if node.kind == 'stmt' and isinstance(a, ast.Assign) and any(src(t) == 'self.qcfail' for t in a.targets) and isinstance(a.value, ast.Constant) and a.value.value is True:
+            pending = None
+        return (pending,)
+    bad = None
+    n = 0
+    for pth, (pending,) in cfg.paths(state0=(None,), step=step, loop_visits=2, max_paths=200000):
+        n += 1
+        if cfg.nodes[pth[-1][0]].info in ('fall', 'return') and pending is not None:
+            bad = (pending, cfg.fmt_path(pth)[-300:])
+    ctx.counters['paths_enumerated'] += n
+    ctx.need('C05-R11', n, 4, 'paths through the Fragment constructor')
+    ctx.emit('C05-R11', bad is None, FRAGMENT, marks[0], f'{n} paths: every set_rejection_reason(.., set_qcfail=True) of the constructor is followed by self.qcfail = True' if bad is None else
+             f'the reads are marked rejected at line {bad[0]} but the constructor ends without self.qcfail = True: the fragment stays valid (path ...{bad[1]})', key='reads-rejected-implies-fragment-invalid',
+             what='Fragment.__init__: reads flagged qc-fail / RR while the fragment itself stays valid (kept by --no_rejects)')
+
+
 META = {
     'text': ('Decides structural necessary conditions of record conservation: in contig-per-process mode every contig the enumerator yields '
              'is put into exactly one job on every path of the construction loop, the shared small-contig job is flushed whenever non-empty, '
